@@ -28,7 +28,9 @@ def is_model_of_reduct(rules, I, J):
 
 def stable_models(prog, atoms):
     rules = list(prog["rules"])
+    defined = set(h for _, head, _ in rules for h in head)
     for a, v in prog.get("externals", {}).items():
+        if a in defined: continue               # an external directive has no effect on an atom that rules define
         if v == 0: rules.append((1, [a], ("n", [])))
         elif v == 1: rules.append((0, [a], ("n", [])))
     atoms = sorted(atoms)
